@@ -92,6 +92,11 @@ func candidates(cur *Case, dir string) []*Case {
 			c.Chain, c.T2, c.Relay, c.Wait, c.Every2 = false, Tun{}, "", false, 0
 			return true
 		})
+		add(func(c *Case) bool {
+			c.T1 = c.T2
+			c.Chain, c.T2, c.Relay, c.Wait, c.Every2 = false, Tun{}, "", false, 0
+			return true
+		})
 		if cur.Wait {
 			add(func(c *Case) bool { c.Wait = false; return true })
 		}
@@ -148,7 +153,14 @@ func candidates(cur *Case, dir string) []*Case {
 	}
 	simplifyTun(func(c *Case) *Tun { return &c.T1 })
 	for t := 0; t < cur.Target; t++ {
-		add(func(c *Case) bool { c.Target = t; return true })
+		// keep the payload length's position relative to the request capacity R of the target kind
+		add(func(c *Case) bool {
+			if d := c.P - room(c.Target); d >= -1 && d <= 1 {
+				c.P = room(t) + d
+			}
+			c.Target = t
+			return true
+		})
 	}
 	if cur.P > 0 {
 		// the initial payload becomes an ordinary first write
